@@ -16,7 +16,23 @@ PURE_MODULE_CALLS = ("re.compile", "t.TypeVar", "typing.TypeVar", "TypeVar", "en
                      "struct.calcsize", "bytes.fromhex", "str.maketrans", "bytes.maketrans", "min", "max", "abs", "hex", "repr", "format",
                      "operator.attrgetter", "operator.itemgetter", "operator.methodcaller", "attrgetter", "itemgetter", "methodcaller")
 # reviewed exception (I3): an idempotent memo in the enum's own value map; results are equal with or without the cache entry
-REVIEWED = {("sansldap._messages.LDAPResultCode._missing_", "cls._value2member_map_.setdefault"): "idempotent memo of unknown result codes inside the enum class itself"}
+class _Reviewed(dict):
+    """The reviewed exceptions, keyed by (class.method, construct): which module of the package the class lives in is not part of what
+    was reviewed (an enum moved to a module of its own keeps its memo)."""
+
+    @staticmethod
+    def _k(key):
+        fq, construct = key
+        return (".".join(fq.split(".")[-2:]), construct)
+
+    def __contains__(self, key):
+        return isinstance(key, tuple) and len(key) == 2 and dict.__contains__(self, self._k(key))
+
+    def __getitem__(self, key):
+        return dict.__getitem__(self, self._k(key))
+
+
+REVIEWED = _Reviewed({("LDAPResultCode._missing_", "cls._value2member_map_.setdefault"): "idempotent memo of unknown result codes inside the enum class itself"})
 
 FIXTURE = '''
 import re
